@@ -5,6 +5,9 @@ import Hs.Drv.C13
   Driver glue for C14.  Requests (tokens after `C14`), `G` as in C13:
     run <caches 0|1> G <nshards> <nthreads> {<nq> {query}*}* <nsched> {tid}*
         query = `sup k` | `asup k` | `inh k` | `fits a b` | `refl <rec>` | `rfits <rec> base`
+              | `assoc p a` | `impl k` | `froot <0..3> k` | `rel <nrecs> {recx}* <rel> <term|-> <target|-> <recx>`
+                (recx = `<key|-> <id|-> <ntags> {<tag> <ref|->}*`; these four read the full defs: use `runx`)
+    runx ...  as `run`, the graph given as `GX` (C13 part 2)
         The model starts from cold caches, runs the given schedule, then lets the unfinished threads run
         round-robin; reply `ok <answers of thread 0>;<thread 1>;..` and, when <caches> = 1, ` # <sup cache> # <inh cache>`
         (answers of one thread joined by `/`: `n:<names>` | `b:0|1` | `!<outcome>`; a cache as `key=names` joined by `+`).
@@ -40,6 +43,25 @@ def pQuery : P Query := fun ts => do
     let (r, ts) ← pRec ts
     let (b, ts) ← pH ts
     pure (.reflFits r b, ts)
+  else if cmd = "assoc" then
+    let (p, ts) ← pH ts
+    let (a, ts) ← pH ts
+    pure (.assoc p a, ts)
+  else if cmd = "impl" then
+    let (k, ts) ← pH ts
+    pure (.impl k, ts)
+  else if cmd = "froot" then
+    let (w, ts) ← pNat ts
+    let (k, ts) ← pH ts
+    pure (.fitsRoot w k, ts)
+  else if cmd = "rel" then
+    let (n, ts) ← pNat ts
+    let (recs, ts) ← pRep pRecX n ts
+    let (r, ts) ← pH ts
+    let (term, ts) ← pHO ts
+    let (target, ts) ← pHO ts
+    let (subj, ts) ← pRecX ts
+    pure (.rel recs r term target subj, ts)
   else none
 
 def pQueries : P (List Query) := fun ts => do
@@ -59,6 +81,8 @@ def showAns : Ans → String
   | .names r => "!" ++ r.tag
   | .bool (.ok b) => if b then "b:1" else "b:0"
   | .bool r => "!" ++ r.tag
+  | .pair (.ok (b, m)) => "n:" ++ showNames (b ++ m)
+  | .pair r => "!" ++ r.tag
 
 def allFinished (s : State) : Bool := s.thr.all fun th => th.prog.isRet
 
@@ -102,6 +126,30 @@ def runReq (ts : List String) : String :=
   | some (sched, _) =>
     let ns := make rows
     let cfg : Cfg := { ns := ns, fuel := fuelFor ns.defs, shard := shardOf nshards }
+    let s := run cfg (init cfg cold qss) sched
+    let s := finish cfg 100000000 s
+    let ans := ";".intercalate (s.thr.map threadAnswers)
+    if withCaches = 1 then "ok " ++ ans ++ " # " ++ showCache s.c.sup ++ " # " ++ showCache s.c.inh
+    else "ok " ++ ans
+
+def runxReq (ts : List String) : String :=
+  match pNat ts with
+  | none => "bad-request"
+  | some (withCaches, ts) =>
+  match pRowsX ts with
+  | none => "bad-request"
+  | some (rows, ts) =>
+  match pNat ts with
+  | none => "bad-request"
+  | some (nshards, ts) =>
+  match pThreads ts with
+  | none => "bad-request"
+  | some (qss, ts) =>
+  match pSched ts with
+  | none => "bad-request"
+  | some (sched, _) =>
+    let x := NsA.makeX rows
+    let cfg : Cfg := { ns := x.ns, fuel := fuelFor x.ns.defs, shard := shardOf nshards, xd := x.xd }
     let s := run cfg (init cfg cold qss) sched
     let s := finish cfg 100000000 s
     let ans := ";".intercalate (s.thr.map threadAnswers)
@@ -193,6 +241,7 @@ def handle (ts : List String) : String :=
   match ts with
   | cmd :: rest =>
     if cmd = "run" then runReq rest
+    else if cmd = "runx" then runxReq rest
     else if cmd = "inv" then invReq rest
     else if cmd = "trace" then traceReq rest
     else "bad-request"
